@@ -39,6 +39,7 @@ type Profile struct {
 	PFlood      float64         // per run: a flood (every delegator on every validator in every denom, then 18 blocks in which everybody exits a little from one validator: more than 100 delegation records, queue buckets and index keys of one validator), a slash of that validator and a jump past all completion times
 	NoLongAddr  bool            // every delegator has a key (the ABCI differential signs transactions)
 	PDrain      float64         // per block: start a drain (every known position of one asset exits in full over two blocks, then a new staking cycle begins)
+	MaxValWild  float64         // probability that a staking-params change also changes MaxValidators (validators pushed out of / let into the bonded set without jailing)
 	PGhost      float64         // per run: one validator-removal scenario (alliance stake on a validator that x/staking then removes: everybody including the operator leaves it while the module holds no staking delegation there)
 	PBurst      float64         // per block: start a packed scenario (same-block multi-denom/multi-validator exits, fan-in redelegations, ...)
 	PExport     float64         // per block: export/import (hard fork) at the block boundary
@@ -413,6 +414,10 @@ func (g *genState) genOp() Op {
 		op.Authority = g.authority()
 		ns := []int64{int64(time.Second), int64(10 * time.Second), int64(time.Minute), int64(time.Hour), int64(21 * 24 * time.Hour)}[r.Intn(5)]
 		op.F = map[string]string{"unbonding_ns": strconv.FormatInt(ns, 10)}
+		if g.p.MaxValWild > 0 && r.Chance(g.p.MaxValWild) {
+			nv := len(g.cfg.Validators)
+			op.F["max_validators"] = strconv.Itoa([]int{1, 2, max(1, nv-1), nv, nv + 1, 100}[r.Intn(6)])
+		}
 		if op.Authority == "gov" && ns > g.unbondNs {
 			g.unbondNs = ns
 		}
@@ -697,6 +702,8 @@ func profileForTier(prop string) *Profile {
 		p.W["unjail"] = 5
 		p.PSlash, p.PEvidence, p.PDowntime = 0.1, 0.04, 0.04
 	case "C10":
+		p.MaxValWild = 0.5
+		p.W["gov_staking_params"] = 3
 		p.PGhost = 0.1
 		p.W["n_delegate"], p.W["n_undelegate"], p.W["n_redelegate"] = 14, 14, 5
 		p.W["unjail"] = 6
